@@ -65,6 +65,14 @@ class Workspace:
             with open(os.path.join(root, 'tpl', 'type', 'list_type.j2'), 'w') as f:
                 f.write("{{- emit_depends('<vector>') -}}{{ i18n('classes', 'list') }}<{{ value_type }}>")
             os.utime(os.path.join(root, 'tpl', 'type', 'list_type.j2'), (BASE_MTIME, BASE_MTIME))
+            # ... and the entrypoint template writes the meta header inside a block comment (text follows the header on its line)
+            os.makedirs(os.path.join(root, 'tpl', 'block'), exist_ok=True)
+            with open(os.path.join(REPO, 'data', 'cpp', 'template', 'block', 'entrypoint.j2')) as f:
+                stock = f.read()
+            assert stock.startswith('// {{ meta_header }}'), 'entrypoint template changed'
+            with open(os.path.join(root, 'tpl', 'block', 'entrypoint.j2'), 'w') as f:
+                f.write('/* {{ meta_header }} */' + stock[len('// {{ meta_header }}'):])
+            os.utime(os.path.join(root, 'tpl', 'block', 'entrypoint.j2'), (BASE_MTIME, BASE_MTIME))
         ws.write_config(input_globs, output_dirs, cache_enabled)
         return ws
 
@@ -73,7 +81,7 @@ class Workspace:
         tpl = '  - tpl\n' if os.path.isdir(os.path.join(self.root, 'tpl')) else ''
         grammar = 'gram/grammar.lark' if os.path.exists(os.path.join(self.root, 'gram', 'grammar.lark')) else 'data/grammar.lark'
         include_dirs = json.dumps(getattr(self, 'include_dirs', None) or self._read_include_dirs())
-        text = CONFIG_TEMPLATE.format(include_dirs=include_dirs, grammar=grammar, tpl=tpl, globs='\n'.join(f'  - {g}' for g in input_globs), outs='\n'.join(f'  - {o}' for o in output_dirs), di=di)
+        text = CONFIG_TEMPLATE.format(include_dirs=include_dirs, grammar=grammar, tpl=tpl, globs='\n'.join(f'  - "{g}"' for g in input_globs), outs='\n'.join(f'  - {o}' for o in output_dirs), di=di)
         with open(os.path.join(self.root, name), 'w') as f:
             f.write(text)
         os.utime(os.path.join(self.root, name), (BASE_MTIME, BASE_MTIME))
